@@ -332,6 +332,11 @@ def oracle_C14(inp):
     try:
         a.get_with(project="x")
         a.get_with(query="project=x")
+        if a:      # removal-only overlays (a None value removes the key), in both spellings
+            ks = list(a.fields.keys())
+            a.get_with(**{ks[-1]: None})
+            a.get_with(key=ks[0], value=None)
+            a.get_with(**{ks[-1]: None, "nosuchkey": None})
         p = a.parent
         pf = p.fields
         pf.clear()
@@ -705,8 +710,19 @@ def oracle_C05(inp):
     if len(set(roots.values())) == len(roots) and len(paths) > 1 and len(set(paths.values())) != len(paths):
         out.append("%r has the same path under configurations with different roots: %r" % (x.uri, paths))
     rel = {cfg: p[len(roots[cfg]):] for cfg, p in paths.items() if p.startswith(roots[cfg])}
-    if len(rel) != len(paths) or len(set(rel.values())) > 1:
-        out.append("paths of %r differ by more than the root: %r" % (x.uri, paths))
+    if len(rel) != len(paths):
+        out.append("a path of %r is not under the root of its configuration: %r (roots %r)" % (x.uri, paths, roots))
+    # "differ only by the configured root": for configurations that are the same up to the root
+    groups = {}
+    for cfg in rel:
+        pc = get_path_config(cfg)
+        r = Resolver.get(pc.name)
+        sig = (repr(sorted((k, sorted(v.items())) for k, v in pc.path_mapping.items() if isinstance(k, str))),
+               repr([(l, r.get_pattern_for(l).replace(roots[cfg], "<root>")) for l in r.get_labels()]))
+        groups.setdefault(sig, []).append(cfg)
+    for cfgs in groups.values():
+        if len({rel[c] for c in cfgs}) > 1:
+            out.append("paths of %r differ by more than the root: %r" % (x.uri, {c: paths[c] for c in cfgs}))
     s2 = inp.get("s2")
     if s2:
         z = Sid(s2)
@@ -1085,6 +1101,8 @@ def oracle_C18(inp):
         return "v%03d" % n
     for n in versions:
         build([task + "/" + vs(n) + tail])
+    for n, t2 in inp.get("others", []):     # versions that exist without this state / file
+        build([task + "/" + vs(n) + t2])
     existing = sorted(set(versions))
     last = max(existing) if existing else None
     probes = [task] if not tail else []
